@@ -348,6 +348,10 @@ func (h *Hist) liveProjection() Dump {
 	}
 	d["app slashed"] = cs.App().GetTotalSlashed().String()
 	d["app rewards"] = h.N.App.GetCurrentRewards().String()
+	// block reward / safe reward: BeginBlock's price update (UpdatePriceFix in the 12-15h window) changes them in memory;
+	// EndBlock of the same block already pays the new reward, so the monitors must see the live value, not the last commit's
+	rw, safe := cs.App().Reward()
+	d["app reward"] = fmt.Sprintf("%s %s", rw, safe)
 	for _, v := range cs.Validators().GetValidators() {
 		drop := " live"
 		if v.IsToDrop() {
